@@ -394,7 +394,9 @@ pub const MUTATIONS: &[&str] = &[
     "dup-chunk",
 ];
 
-const EDGE_BYTES: &[u8] = &[0x00, 0x01, 0x3f, 0x40, 0x7f, 0x80, 0xbf, 0xc0, 0xff, 0x14, 0x15];
+const EDGE_BYTES: &[u8] = &[
+    0x00, 0x01, 0x3f, 0x40, 0x7f, 0x80, 0xbf, 0xc0, 0xff, 0x14, 0x15,
+];
 
 /// Apply one mutation; returns its index into MUTATIONS.
 pub fn mutate(rng: &mut Rng, b: &mut Vec<u8>) -> usize {
@@ -421,7 +423,11 @@ pub fn mutate(rng: &mut Rng, b: &mut Vec<u8>) -> usize {
         }
         3 => {
             for _ in 0..rng.range(1, 8) {
-                b.push(if rng.chance(1, 3) { 0 } else { rng.next() as u8 });
+                b.push(if rng.chance(1, 3) {
+                    0
+                } else {
+                    rng.next() as u8
+                });
             }
         }
         4 => {
